@@ -674,7 +674,7 @@ theorem semSubset_kind (ped : Bool) (op : Nat) (hop : op < 256) (bytes : List Na
   · rw [if_pos c14]
     exact EP_ret (EP_applyUnary _ _ _ _)
   rw [if_neg c14]
-  by_cases c15 : op = 0x4F
+  by_cases c15 : op = 0x4F ∨ op = 0x7F
   · rw [if_pos c15]
     exact EP_ret (EP_map _ (EP_pop _ _))
   rw [if_neg c15]
